@@ -1,6 +1,7 @@
 (* C19 - Derived accessors always agree with the primary components. acc_obs (Model/Preds.v) is the
    8-clause executable form over the getter values. Proofs in Proofs/RecordInv.v, Proofs/MachineInv.v. *)
 From Verif Require Import Lib.Base Model.Cfg Model.Url Model.Machine Model.Api Model.Obs Model.Preds Gen.Options Proofs.RecordInv Proofs.MachineInv.
+From Verif Require Model.Canon Proofs.CanonTotal.
 
 (* for ANY configuration: the record invariant implies all accessor clauses *)
 Theorem C19_invariant_implies_accessors : forall c u, Inv c u -> acc_obs c (obs_url c u) = [].
@@ -24,3 +25,14 @@ Theorem C19_histories : forall idna_raw, H3 idna_raw -> forall c, cfg_okm c = tr
   Forall (fun x : list str * list str * list str => slot_ok c (snd (fst x)) /\ slot_ok c (snd x)) (snd (history idna_raw c b input ops)).
 Proof. exact history_ok. Qed.
 Print Assumptions C19_histories.
+
+(* beyond the property's own scope: the accessor clauses also hold for every URL a canonicalization profile returns
+   (Proofs/CanonTotal.v; InvW = every clause of the record invariant except that the query is only free of the ordinary
+   query set: the parameter-list serializer does not use the special-query set, see CanonTotal.Canonicalize_Inv_refuted) *)
+Theorem C19_accessors_after_canonicalization : forall idna_raw p x u',
+  H3 idna_raw -> cfg_okm (p_cfg p) = true -> c_fail (p_cfg p) = false ->
+  sp_chars_ok (c_querySet (p_cfg p)) = true ->
+  Verif.Model.Canon.ProfileParse idna_raw p x = Verif.Model.Canon.CUrl u' ->
+  acc_obs (p_cfg p) (obs_url (p_cfg p) u') = [].
+Proof. intros idna_raw p x u' H1 H2 H3' H4 H5. exact (proj1 (Verif.Proofs.CanonTotal.ProfileParse_obs idna_raw p x u' H1 H2 H3' H4 H5)). Qed.
+Print Assumptions C19_accessors_after_canonicalization.
